@@ -11,8 +11,8 @@ EXPLANATION = ('llsym executes the real static filter functions of engine_collis
                '(restated documented rule), filterBox / filterSphereBox / filterSphere in real arithmetic (a pair is discarded only if the volumes are separated by more than the margin), '
                'and mj_SAP with the real SAPsort instantiation in exact IEEE arithmetic (double inputs, float sort keys) on n boxes with fully symbolic coordinates: every pair of boxes whose '
                'intervals overlap on all three axes is returned exactly once, no pair is returned twice or with equal ids, at most maxpair pairs.')
-BOUNDS = {'quick': {'SAP': 'n = 2 boxes, 3 sweep axes, coordinates any finite double', 'masks': 'all 32-bit'}, 'thorough': {'SAP': 'n = 3 (axis 0)'}}
-OUTSIDE = 'mj_broadphase principal-axis projection, mj_collideTree / BVH, flex paths, contact ordering (contactcompare), the assembled mj_collision.'
+BOUNDS = {'quick': {'SAP': 'n = 2 boxes, 3 sweep axes, coordinates any finite double', 'masks': 'all 32-bit'}, 'thorough': {'SAP': 'same as quick (n = 3 does not finish within 2800 s)'}}
+OUTSIDE = 'sweep-and-prune over three or more boxes (exact binary64 reasoning does not finish); mj_broadphase principal-axis projection, mj_collideTree / BVH, flex paths, contact ordering (contactcompare), the assembled mj_collision.'
 ASSUMPTIONS = ['AAMM coordinates finite, min <= max per axis', 'mj_stackAllocInfo returns a fresh block of the requested size (its own contract is C19)', 'real-number semantics for the geometric filters']
 BUDGET = {'quick': 600, 'thorough': 3000}
 _c = {}
@@ -189,5 +189,5 @@ def unit_sap(tier, n, axis):
 def units(tier):
     u = [('bitmask', 'unit_bitmask', {}), ('bodypair', 'unit_bodypair', {}), ('geomfilters', 'unit_geomfilters', {})]
     for ax in (0, 1, 2): u.append(('SAP_n2_axis%d' % ax, 'unit_sap', {'n': 2, 'axis': ax}))
-    if tier == 'thorough': u.append(('SAP_n3_axis0', 'unit_sap', {'n': 3, 'axis': 0}, 2800))
+    # three boxes (SAP_n3) do not finish within 2800 s of exact floating-point reasoning: outside the claim
     return u
